@@ -330,19 +330,30 @@ class _AsyncFileWriter(_UnicodeWriter[AnyStr]):
     async def _writer(self) -> None:
         """Process writes to the file"""
 
-        while True:
-            data = await self._queue.get()
+        try:
+            while True:
+                data = await self._queue.get()
 
-            if data is None:
+                try:
+                    if data is None:
+                        break
+
+                    await self._file.write(self.encode(data))
+                finally:
+                    self._queue.task_done()
+
+                if self._paused and self._queue.qsize() < _QUEUE_LOW_WATER:
+                    self._process.resume_feeding(self._datatype)
+                    self._paused = False
+        finally:
+            # If the write failed, don't leave anyone waiting on the
+            # data which is still queued or try to queue more
+
+            self._write_task = None
+
+            while not self._queue.empty():
+                self._queue.get_nowait()
                 self._queue.task_done()
-                break
-
-            await self._file.write(self.encode(data))
-            self._queue.task_done()
-
-            if self._paused and self._queue.qsize() < _QUEUE_LOW_WATER:
-                self._process.resume_feeding(self._datatype)
-                self._paused = False
 
         if self._needs_close:
             await self._file.close()
@@ -616,20 +627,31 @@ class _StreamWriter(_UnicodeWriter[AnyStr]):
     async def _feed(self) -> None:
         """Feed data to the stream"""
 
-        while True:
-            data = await self._queue.get()
+        try:
+            while True:
+                data = await self._queue.get()
 
-            if data is None:
+                try:
+                    if data is None:
+                        break
+
+                    self._writer.write(self.encode(data))
+                    await self._writer.drain()
+                finally:
+                    self._queue.task_done()
+
+                if self._paused and self._queue.qsize() < _QUEUE_LOW_WATER:
+                    self._process.resume_feeding(self._datatype)
+                    self._paused = False
+        finally:
+            # If the write failed, don't leave anyone waiting on the
+            # data which is still queued or try to queue more
+
+            self._write_task = None
+
+            while not self._queue.empty():
+                self._queue.get_nowait()
                 self._queue.task_done()
-                break
-
-            self._writer.write(self.encode(data))
-            await self._writer.drain()
-            self._queue.task_done()
-
-            if self._paused and self._queue.qsize() < _QUEUE_LOW_WATER:
-                self._process.resume_feeding(self._datatype)
-                self._paused = False
 
         if self._recv_eof:
             self._writer.write_eof()
